@@ -672,12 +672,77 @@ def _helper_ok(fn):
             if isinstance(x, (ast.Yield, ast.YieldFrom, ast.Await, ast.Global, ast.Nonlocal, ast.FunctionDef, ast.AsyncFunctionDef, ast.ClassDef, ast.Lambda)):
                 return False
             if isinstance(x, ast.Return) and not (x is st and i == len(body) - 1):
-                return False
+                if not _structured_returns(body):
+                    return False
             if isinstance(x, ast.Call) and isinstance(x.func, ast.Name) and x.func.id == fn.name:
                 return False
             if isinstance(x, ast.Call) and isinstance(x.func, ast.Attribute) and x.func.attr == fn.name:
                 return False
     return True
+
+
+def _always_exits(stmts):
+    if not stmts:
+        return False
+    last = stmts[-1]
+    if isinstance(last, (ast.Return, ast.Raise)):
+        return True
+    if isinstance(last, ast.If):
+        return _always_exits(last.body) and _always_exits(last.orelse)
+    return False
+
+
+def _has_return(stmts):
+    return any(isinstance(x, ast.Return) for s_ in stmts for x in ast.walk(s_))
+
+
+def _structured_returns(stmts):
+    """returns occur only as statements of (nested) if-branches or at the end of the body - never inside loops / try / with"""
+    for st in stmts:
+        if isinstance(st, ast.Return):
+            continue
+        if isinstance(st, ast.If):
+            if not (_structured_returns(st.body) and _structured_returns(st.orelse)):
+                return False
+            if (_has_return(st.body) and not _always_exits(st.body)) or (_has_return(st.orelse) and not _always_exits(st.orelse)):
+                return False
+            continue
+        if _has_return([st]):
+            return False
+    return True
+
+
+def _single_exit(stmts, target):
+    """the same statements with every `return e` turned into `target = e` (or dropped when target is None) and the code
+    after an exiting if-branch moved under the other branch"""
+    import copy
+    out = []
+    for i, st in enumerate(stmts):
+        if isinstance(st, ast.Return):
+            if target is not None:
+                out.append(ast.copy_location(ast.Assign(targets=[copy.deepcopy(target)], value=st.value if st.value is not None else ast.Constant(value=None)), st))
+            return out, True
+        if isinstance(st, ast.Raise):
+            out.append(st)
+            return out, True
+        if isinstance(st, ast.If) and (_has_return(st.body) or _has_return(st.orelse)):
+            b, be = _single_exit(st.body, target)
+            o, oe = _single_exit(st.orelse, target)
+            rest = stmts[i + 1:]
+            if be and oe:
+                out.append(ast.copy_location(ast.If(test=st.test, body=b or [ast.Pass()], orelse=o), st))
+                return out, True
+            r, re_ = _single_exit(rest, target)
+            if be:
+                out.append(ast.copy_location(ast.If(test=st.test, body=b or [ast.Pass()], orelse=o + r), st))
+            elif oe:
+                out.append(ast.copy_location(ast.If(test=st.test, body=(b + r) or [ast.Pass()], orelse=o), st))
+            else:
+                out.append(st)
+                out.extend(r)
+            return out, re_
+        out.append(st)
+    return out, False
 
 
 def inline_new_helpers(tree, modname):
@@ -780,8 +845,14 @@ def inline_new_helpers(tree, modname):
                     body = copy.deepcopy(body)
                     hlocals = {x.id for s in body for x in ast.walk(s) if isinstance(x, ast.Name) and isinstance(x.ctx, ast.Store)} - set(params)
                     lmap = {}
+                    # a helper local named like the variable the call's result is assigned to may keep its name: the variable is
+                    # overwritten by this statement anyway (unless the call's arguments read it)
+                    own_target = None
+                    if isinstance(st, ast.Assign) and len(st.targets) == 1 and isinstance(st.targets[0], ast.Name):
+                        if not any(isinstance(x, ast.Name) and x.id == st.targets[0].id for a_ in list(val.args) + [k.value for k in val.keywords] for x in ast.walk(a_)):
+                            own_target = st.targets[0].id
                     for l_ in hlocals:
-                        lmap[l_] = l_ if l_ not in names_in_caller else "%s_h%d" % (l_, counter[0])
+                        lmap[l_] = l_ if (l_ not in names_in_caller or l_ == own_target) else "%s_h%d" % (l_, counter[0])
                         names_in_caller.add(lmap[l_])
 
                     class Sub(ast.NodeTransformer):
@@ -795,15 +866,31 @@ def inline_new_helpers(tree, modname):
                             return node
                     body = [Sub().visit(s) for s in body]
                     ret = None
-                    if body and isinstance(body[-1], ast.Return):
-                        ret = body[-1].value
-                        body = body[:-1]
-                    new_stmts = pre + body
-                    if isinstance(st, ast.Expr):
-                        pass  # a bare call: nothing remains of the statement
+                    nested = any(isinstance(x, ast.Return) for s_ in body[:-1] for x in ast.walk(s_)) or (body and not isinstance(body[-1], ast.Return) and _has_return(body))
+                    if nested:
+                        # early returns: the helper body in single-exit form, assigning the call statement's own target
+                        if isinstance(st, ast.Return):
+                            new_stmts = pre + body  # `return helper(...)`: the helper's returns are the caller's
+                        elif isinstance(st, ast.Expr):
+                            conv, _ = _single_exit(body, None)
+                            new_stmts = pre + conv
+                        elif isinstance(st, ast.Assign) and len(st.targets) == 1 and isinstance(st.targets[0], ast.Name):
+                            conv, exits = _single_exit(body, st.targets[0])
+                            if not exits:
+                                conv.append(ast.Assign(targets=[copy.deepcopy(st.targets[0])], value=ast.Constant(value=None)))
+                            new_stmts = pre + conv
+                        else:
+                            continue
                     else:
-                        st.value = ret if ret is not None else ast.Constant(value=None)
-                        new_stmts.append(st)
+                        if body and isinstance(body[-1], ast.Return):
+                            ret = body[-1].value
+                            body = body[:-1]
+                        new_stmts = pre + body
+                        if isinstance(st, ast.Expr):
+                            pass  # a bare call: nothing remains of the statement
+                        else:
+                            st.value = ret if ret is not None else ast.Constant(value=None)
+                            new_stmts.append(st)
                     for s_ in new_stmts:
                         ast.copy_location(s_, st)
                     blk[i:i + 1] = new_stmts
